@@ -99,6 +99,15 @@ def get_ranges(headervalue, content_length):
     if not headervalue:
         return None
 
+    try:
+        return _get_ranges(headervalue, content_length)
+    except ValueError:
+        # From rfc 2616 sec 14.16: a syntactically invalid Range header
+        # is treated as if it did not exist
+        return None
+
+
+def _get_ranges(headervalue, content_length):
     result = []
     _bytesunit, byteranges = headervalue.split('=', 1)
     for brange in byteranges.split(','):
